@@ -298,6 +298,59 @@ func genC07(env *core.Env, emit func(core.Case)) {
 			env.Count("pending-retry/" + outcome)
 		}
 	}
+	// the client's transport ends (or fails) inside its SECOND hello, at every offset: what arrived before
+	// the cut is delivered, then the transport's own error - an incomplete record is never interpreted
+	for _, fin := range []string{"eof", "fail"} {
+		var rc retryCase
+		for _, c := range retryCases(r) {
+			if c.Kind == "G" {
+				rc = c
+			}
+		}
+		ccs := gen.Record(20, 0x0303, []byte{1})
+		for cut := 0; cut < len(rc.Second); cut += env.Pick(3, 1) {
+			idx++
+			s := connh.NewSess(rc.Keys)
+			s.Register(rc.First)
+			s.Register(rc.Second)
+			first := s.New(oneChunk(rc.First), "eof")
+			w := ""
+			outcome := first.Err
+			if first.Err == "-" && first.Accepted {
+				s.Read(70000)
+				s.Write(rc.HRR)
+				s.Feed([][]byte{ccs, rc.Second[:cut]}, fin)
+				var got []byte
+				lastErr := "-"
+				size := readSizes[cut%len(readSizes)]
+				for i := 0; i < 100000; i++ {
+					rd := s.Read(size)
+					got = append(got, rd.Data...)
+					if rd.Err != "-" {
+						lastErr = rd.Err
+						break
+					}
+					if len(rd.Data) == 0 {
+						w = "Read returned (0, nil)"
+						break
+					}
+				}
+				outcome = lastErr
+				want := gen.Cat(ccs, rc.Second[:cut])
+				switch {
+				case w != "":
+				case !bytes.Equal(got, want):
+					w = fmt.Sprintf("cut at %d of the second hello: %d bytes delivered, %d arrived before the cut", cut, len(got), len(want))
+				case lastErr != "io:"+fin:
+					w = fmt.Sprintf("cut at %d of the second hello: Read ends with %s, the transport ended with %s", cut, lastErr, fin)
+				}
+			}
+			s.X("a transport cut inside the retried hello: the bytes before the cut, then the transport's error", w)
+			emit(core.Case{Name: fmt.Sprintf("retry-cut/%d", idx), Stream: "retry-cut", Ops: s.Ops, Key: "retry-cut/" + fin,
+				Sig: fmt.Sprintf("retry-cut/%s/%s/%s", fin, cutClass(5+cut, rc.Second), outcome), Sample: map[string]any{"cut": cut, "fin": fin, "outcome": outcome}})
+			env.Count("retry-cut/" + outcome)
+		}
+	}
 	// several connections served by one process, their reads interleaved with small buffers: what one
 	// connection delivers must not depend on what the others are doing (buffers are per connection)
 	for rep := 0; rep < env.Pick(6, 60); rep++ {
